@@ -122,6 +122,18 @@ class VLoop(asyncio.base_events.BaseEventLoop):
                 done += 1
                 if self.iterations > self.max_iterations:
                     raise RuntimeError('iteration budget exhausted (livelock?)')
+                # iterations at one and the same virtual instant
+                if self._vnow != self.__dict__.get('_inst_t'):
+                    self._inst_t, self._inst_n = self._vnow, 0
+                self._inst_n += 1
+                if self._inst_n > self.__dict__.get('max_instant', 0):
+                    self.max_instant = self._inst_n
+                lim = self.__dict__.get('instant_budget')
+                if lim is not None and self._inst_n > lim:
+                    raise RuntimeError(
+                        'iteration budget exhausted (livelock?): %d '
+                        'iterations while the virtual clock stands at %r' % (
+                            self._inst_n, self._vnow))
         finally:
             self._leave()
         return done
